@@ -314,7 +314,7 @@ def oracle_stream(pid, sc, ob):
                 if pid == "C08" and len(d) == 0:
                     return "empty data frame"
                 delivered += d
-                if pid in ("C08", "C11") and not accepted.startswith(delivered):
+                if (pid == "C08" or (pid == "C11" and aborted)) and not accepted.startswith(delivered):
                     return "delivered bytes are not a prefix of the accepted bytes"
                 parked, woken = None, False
             elif kind == "E":
@@ -348,7 +348,7 @@ def fam_stream_ops(maxlen=5, chunks=(1, 2, 3)):
                 if "R" not in seq and "A" not in seq and n == maxlen and seq[-1] != "P":
                     pass
                 k += 1
-                out.append({"id": "st%d" % k, "chunk": cs, "ops": list(seq) + ["P", "P", "P"]})
+                out.append({"id": "st%d_%d" % (cs, k), "chunk": cs, "ops": list(seq) + ["P", "P", "P", "P"]})
     return out
 
 
@@ -364,8 +364,8 @@ def fam_stream_disconnect():
 
 
 FAMILIES[("chunker", "Reader::drop")] = ("stream_witness", fam_stream_disconnect)
-FAMILIES[("chunker", "Reader")] = ("stream_witness", lambda: fam_stream_ops(4))
-FAMILIES[("chunker", "Writer")] = ("stream_witness", lambda: fam_stream_ops(4))
+FAMILIES[("chunker", "Reader")] = ("stream_witness", lambda: fam_stream_ops(5, (2, 3)) + fam_stream_ops(4, (1,)))
+FAMILIES[("chunker", "Writer")] = FAMILIES[("chunker", "Reader")]
 
 
 
@@ -738,7 +738,8 @@ def fam_glue():
     k = 0
     L = 1000
     LM = 1000000000
-    ranges = [None, "bytes=0-9", "bytes=5-", "bytes=-7", "bytes=990-2000", "bytes=1000-", "bytes=0-1,5-6", "bytes=0-0,-1,10-19", "bytes=0-600,100-700", "bytes=5-6, 0-1", "items=0-5", "bytes=abc", "bytes=0-1,2000-", "bytes=-0"]
+    ranges = [None, "bytes=0-9", "bytes=5-", "bytes=-7", "bytes=990-2000", "bytes=1000-", "bytes=0-1,5-6", "bytes=0-0,-1,10-19", "bytes=0-600,100-700", "bytes=5-6, 0-1", "items=0-5", "bytes=abc", "bytes=0-1,2000-", "bytes=-0",
+              "bytes=0-9,0-9", "bytes=0-9,0-9,20-29", "bytes=-10,990-", "bytes=5-6,-10,990-", "bytes=0-1,3-4,3-4,0-1"]
     ifr = [None, '"x"', 'W/"x"', '"y"', http_date(LM), '"x', "garbage"]
     for et in (None, '"x"', 'W/"x"'):
         for rg in ranges:
